@@ -61,6 +61,28 @@ def gen(ctx):
         add("recv", b"binary: " + vb + b"\nFOOBAR\nOK\n", "eof", "invalid" if vb not in (b"06", b"006") else None)
         add("recv", b"ACK [" + vb + b"@0] {} x\n", "eof", "invalid" if vb not in (b"06", b"006") else None)
         add("recv", b"ACK [5@" + vb + b"] {} x\n", "eof", "invalid" if vb not in (b"06", b"006") else None)
+    # non-ASCII where only ASCII letters are allowed: every 2-byte UTF-8 sequence of two lead bytes plus a sample of the others
+    # (their bytes read as Latin-1 "letters" by a byte-wise classification), inside a key and inside the command of an ACK line
+    pairs = [(b1, b2) for b1 in (0xC2, 0xC3) for b2 in range(0x80, 0xC0)]
+    others = [(b1, b2) for b1 in range(0xC4, 0xE0) for b2 in range(0x80, 0xC0)]
+    rng.shuffle(others)
+    for b1, b2 in pairs + others[:60 if ctx.tier == "quick" else 2000]:
+        ch = bytes([b1, b2])
+        for s_ in (b"T" + ch + b"te: x\nOK\n", ch + b": x\nOK\n", b"ACK [5@0] {pl" + ch + b"y} nope\n"):
+            cases.append(g.case_line("recv", rng.choice("ab"), 1, "eof", [s_]))
+            expect.append("invalid")
+    # long malformed lines that are valid UTF-8, with a multi-byte character at every offset around the places where an excerpt
+    # for a log message or an error value would be cut (32, 64, 128, 256 bytes), the whole line in one read
+    for cut in (32, 64, 128, 256):
+        for ch in ("\u00f3", "\u65e5", "\U0001F600"):
+            for off in range(cut - 4, cut + 2):
+                line = ("file Music/" + "a" * 400)[:off] + ch + "/track.flac"
+                for s_ in (line.encode() + b"\nOK\n", b"foo: bar\n" + line.encode() + b"\nOK\n", b"ACK [5@0] {} " + line.encode()[:off + len(ch.encode())] + b"\xff\n"):
+                    cases.append(g.case_line("recv", rng.choice("ab"), 1, "eof", [s_]))
+                    expect.append("invalid")
+                good = ("file: Music/" + "a" * 400)[:off] + ch + "/track.flac"
+                cases.append(g.case_line("recv", rng.choice("ab"), 1, "eof", [good.encode() + b"\nOK\n"]))
+                expect.append(None)
     # sizes: a read that fills the buffer exactly, and large pipelined responses in bulk reads
     for st, _ in g.exact_fill_streams():
         add("recv", st, "eof")
